@@ -228,6 +228,40 @@ func runC11(r *Run) {
 	r.rule("C11.R3", "every division reachable from unrecovered roots has a non-zero divisor by construction, by a dominating test, or by validation at its writers", 8)
 	r.rule("C11.R3w", "witnesses for the audited divisor: TokenFeeder validation rejects Interval < 1; every writer of oracle params validates or constructs non-zero intervals", 4)
 	r.rule("C11.R5", "the ok result of big.Int.SetString / NewIntFromString is checked before the value is used on unrecovered paths", 2)
+	r.rule("C11.R6", "arithmetic that panics on a negative result in block processing stays non-negative by construction: the fee-distribution remainder (C17.R3/R4 obligations) and the slashed-undelegation clamp (C04.R2)", 8)
+	if r.Prop == "C11" {
+		sub := NewRun(r.W, "C17", r.Tier, r.Seed)
+		runC17(sub)
+		n := 0
+		for _, o := range sub.Obs {
+			if o.Rule != "C17.R3" && o.Rule != "C17.R4" {
+				continue
+			}
+			n++
+			if o.Status == "ok" {
+				r.ok("C11.R6", o.Key, o.Pos, o.Desc)
+			} else {
+				r.bad("C11.R6", o.Key, o.Pos, o.Desc, o.Detail)
+			}
+		}
+		if n == 0 {
+			r.bad("C11.R6", "remainder|none", "-", "C17.R3 obligations present", "no obligations")
+		}
+		// a slashed undelegation never goes below zero (its completed amount becomes a coin amount in the
+		// delegation EndBlock, where a negative value panics): the clamp of C04.R2
+		sub4 := NewRun(r.W, "C04", r.Tier, r.Seed)
+		runC04(sub4)
+		for _, o := range sub4.Obs {
+			if o.Rule != "C04.R2" {
+				continue
+			}
+			if o.Status == "ok" {
+				r.ok("C11.R6", "slash|"+o.Key, o.Pos, o.Desc)
+			} else {
+				r.bad("C11.R6", "slash|"+o.Key, o.Pos, o.Desc, o.Detail)
+			}
+		}
+	}
 
 	br := blockReachable(w)
 	skip := func(f *types.Func) bool {
